@@ -160,7 +160,7 @@ func (s *SelectStatement) ToStreamConfig() (*types.Config, string, error) {
 					if err != nil {
 						return nil, "", err
 					}
-					if n != "" {
+					if n != "" && !isScalarFunctionItem(fieldName) {
 						// If string literal, use parsed field name (remove quotes)
 						simpleFields = append(simpleFields, n)
 					} else {
@@ -778,6 +778,25 @@ func isAggregationFunction(expr string) bool {
 	return false
 }
 
+// isScalarFunctionItem reports whether a SELECT item is a call of a registered scalar (non-aggregate) function.
+// For such an item the name ParseAggregateTypeWithExpression returns is the function's first input column, not an
+// output name: upper(a) written without AS is called upper(a), not a.
+func isScalarFunctionItem(expr string) bool {
+	name := extractFunctionName(expr)
+	if name == "" {
+		return false
+	}
+	fn, ok := functions.Get(name)
+	if !ok {
+		return false
+	}
+	switch fn.GetType() {
+	case functions.TypeAggregation, functions.TypeAnalytical, functions.TypeWindow:
+		return false
+	}
+	return true
+}
+
 // extractFieldOrder extracts original order of fields from Fields slice
 // Returns field names list in order of appearance in SELECT statement
 func extractFieldOrder(fields []Field) ([]string, error) {
@@ -793,7 +812,7 @@ func extractFieldOrder(fields []Field) ([]string, error) {
 			if err != nil {
 				return nil, err
 			}
-			if fieldName != "" {
+			if fieldName != "" && !isScalarFunctionItem(field.Expression) {
 				// If parsed field name (like string literal), use parsed name
 				fieldOrder = append(fieldOrder, fieldName)
 			} else {
